@@ -13,7 +13,7 @@ PAYLOADS = ['ramp', 'zero', 'negzero', 'one', 'denorm', 'tiny', 'huge', 'neg']
 NAMES = ['AVERAGE', 'EMISSIONS', 'AIRQUALITY', 'INSTANT']
 SPECIES = [['O3'], ['O3', 'NO2'], ['O', 'NO2', 'ABCDEFGHIJ'], ['NO', 'NO_2']]
 SHAPES = [(nx, ny, nz) for nx in (1, 2, 3) for ny in (1, 2, 3) for nz in (1, 2, 3)]
-GRID2 = dict(plon=-100., plat=45., iutm=0, xorg=-24., yorg=12., delx=4., dely=4., iproj=2, istag=0,
+GRID2 = dict(plon=-100., plat=45., iutm=0, xorg=-24., yorg=12., delx=4., dely=2., iproj=2, istag=0,
              tlat1=30., tlat2=60.)
 FORMATS = ('uamiv', 'lateral_boundary', 'humidity', 'vertical_diffusivity', 'one3d', 'temperature',
            'height_pressure', 'wind', 'cloud_rain')
